@@ -16,11 +16,13 @@ CHECK = dict(
           "boundaries; a misbehaving node returning duties of un-asked validators and a proposer duty with a wrong pubkey for a known index) x "
           "start slot in {first, second, last} of an epoch x every placement of <=1 (quick) / <=2 (thorough) failing calls among the first 16 "
           "calls to validators/attester/proposer/sync duties x {no slow call, one of the first 16 calls taking 1.5 / 2.5 / 3.5 slots (late and "
-          "skipped ticks)} x chain-reorg event {none; thorough: in run slot 2, 3 or 7; quick: the same three only in otherwise undisturbed "
+          "skipped ticks)} x chain-reorg event {none; thorough: 5 s into run slot 2, 3 or 7, delivered to HandleChainReorgEvent (feature on) and to the duties "
+          "cache; quick: the same three only in otherwise undisturbed "
           "scripts}; 4 slots/epoch, 12 s slots, 12 slots per run, cluster validators 1,2 active, 3 activating at the third epoch, 4 exited, "
           "foreign validator 9",
     trusted="testing/synctest virtual time; the stub answers exactly for the indices/pubkeys it is asked about; map iteration rotation and "
-            "select order pinned (runtime overlay) so that a script replays identically; the per-epoch cache refresh of app/app.go is "
+            "select order pinned (runtime overlay: receive cases polled in source order) so that a script replays identically up to the order "
+            "of same-instant events and the race at the stop instant; the per-epoch cache refresh of app/app.go is "
             "replayed through the scheduler's schedSlotFunc test hook (synchronously, at the first delivered tick of each epoch)",
     rule="SAFETY (every script): no (duty type, slot) triggered twice; every triggered definition set == the table's assignment for that slot "
          "and type restricted to cluster validators active in that epoch (same validators, byte-equal marshalled definitions); nothing for "
@@ -30,7 +32,10 @@ CHECK = dict(
          "validators active in E (never, if one kind has none). A duty (type, slot s) with a non-empty expected set is REQUIRED to have been "
          "triggered (exactly once) iff the slot subscriber received the tick of s, start(s) > T(epoch(s)) strictly, start(s)+slot <= stop "
          "instant and the scheduler had already begun scheduling a later slot strictly before the stop instant. In the slot in which "
-         "resolution completes (or earlier) triggering is allowed but not required. Non-trivial class = table/start/failing-call kind@index/"
+         "resolution completes (or earlier) triggering is allowed but not required. One exemption in the safety part: a duty of validator 3 "
+         "in an epoch before its activation is not held against the scheduler once the node itself has reported 3 as active (a validators "
+         "answer for a state in the activation epoch or later returned before the trigger - the 'head' fallback answered while a late tick "
+         "of the previous epoch is processed); only the stub, unlike a real node, assigns duties before activation. Non-trivial class = table/start/failing-call kind@index/"
          "slow-call duration:kind@index(/reorg slot)",
     assumptions=ENUMX_ASSUME,
     budget_s={"quick": 100, "thorough": 1500},
